@@ -177,6 +177,8 @@ var baseGoroutines int
 // this exactly; natively a generous pause stands in for it).
 func Yield()           { runtime.Gosched(); time.Sleep(150 * time.Millisecond) }
 func AllocLimit(n int) {}
+func HBRelease(key any) {}
+func HBAcquire(key any) {}
 
 var jitterRand *rand.Rand
 var jitterMu sync.Mutex
